@@ -36,6 +36,9 @@ def step (st : Store) (line : String) : Store × String :=
     (st', if existed then "ok existed" else "ok new")
   | ["unsub", c, full] => (st.unsubscribe (str c) (str full), "ok")
   | ["unsuball", c] => (st.unsubscribeAll (str c), "ok")
+  | ["cmatch", ty, topics] =>
+    -- concurrent lookups: each answers what it answers alone (lookups do not change the store)
+    (st, String.intercalate " | " ((topics.splitOn ",").map (fun t => iter st { type := natOf ty % 256, topic := str t, matchType := 2 })))
   | ["match", ty, topic] => (st, iter st { type := natOf ty % 256, topic := str topic, matchType := 2 })
   | ["match", ty, topic, c] => (st, iter st { type := natOf ty % 256, topic := str topic, matchType := 2, client := str c })
   | ["get", ty, name] => (st, iter st { type := natOf ty % 256, topic := str name, matchType := 1 })
